@@ -10,11 +10,14 @@ package qedsim
 // own: ./check C10 thorough runs it after the parked-thread check.
 
 import (
+	"encoding/json"
 	"fmt"
+	"runtime"
 	"sync"
 
 	"github.com/bbva/qed/consensus"
 	"github.com/bbva/qed/crypto/hashing"
+	"github.com/bbva/qed/protocol"
 	"github.com/hashicorp/raft"
 )
 
@@ -53,13 +56,24 @@ func execC10R(r *Run) {
 				mu.Unlock()
 				Capture(func() {
 					switch rng.IntN(6) {
+					// the answers are consumed as the HTTP handlers consume them: encoded
+					// after the call has returned and every lock is released
 					case 0:
-						nd.rn.QueryDigestMembership(d)
+						if mp, err := nd.rn.QueryDigestMembership(d); err == nil && mp != nil {
+							runtime.Gosched()
+							json.Marshal(protocol.ToMembershipResult(nil, mp))
+						}
 					case 1:
-						nd.rn.QueryDigestMembershipConsistency(d, uint64(rng.IntN(int(n))))
+						if mp, err := nd.rn.QueryDigestMembershipConsistency(d, uint64(rng.IntN(int(n)))); err == nil && mp != nil {
+							runtime.Gosched()
+							json.Marshal(protocol.ToMembershipResult(nil, mp))
+						}
 					case 2:
 						j := uint64(rng.IntN(int(n)))
-						nd.rn.QueryConsistency(uint64(rng.IntN(int(j+1))), j)
+						if ip, err := nd.rn.QueryConsistency(uint64(rng.IntN(int(j+1))), j); err == nil && ip != nil {
+							runtime.Gosched()
+							json.Marshal(protocol.ToIncrementalResponse(ip))
+						}
 					case 3:
 						nd.rn.Info()
 						nd.rn.ListBackups()
